@@ -1423,3 +1423,43 @@ package sio
 //@   callsite onError skip
 //@   callsite forEach skip
 //@   ensures s.state == clientSocketConnStateDisconnected [C05.cli.refused.not.attached]
+
+// C02 (single drainer): every connection's frame queue gets exactly ONE drainer goroutine, started on THAT queue with
+// THAT connection's Engine.IO socket (two drainers, or a drainer on a stale queue, would reorder or strand frames).
+//@ func newServerConn
+//@   opt safety off
+//@   requires server != nil && creator != nil && _eio != nil
+//@   modifies *
+//@   ghost drainers int = 0
+//@   callsite WithContext skip
+//@   callsite ID skip
+//@   callsite creator skip
+//@   callsite (*packetQueue).pollAndSend go
+//@     requires arg0 == _eio && drainers == 0 [C02.drainer.single.server]
+//@     update drainers = drainers + 1
+//@   ensures drainers == 1 && result0 != nil && result0.eio == _eio && result0.server == server [C02.drainer.started.server]
+
+//@ func (*Manager).connect
+//@   opt safety off
+//@   modifies *
+//@   ghost dialed bool = false
+//@   ghost dialerr bool = false
+//@   ghost sock eio.ClientSocket = nil
+//@   ghost fresh int = 0
+//@   ghost drainers int = 0
+//@   callsite Dial skip
+//@     updateafter dialed = true
+//@     updateafter dialerr = result1 != nil
+//@     updateafter sock = result0
+//@   callsite newPacketQueue
+//@     update fresh = fresh + 1
+//@   callsite (*packetQueue).pollAndSend go
+//@     requires dialed && !dialerr && arg0 == sock && fresh == 1 && drainers == 0 && recv == m.eioPacketQueue [C02.drainer.single.client]
+//@     update drainers = drainers + 1
+//@   callsite forEach skip
+//@   callsite (*Manager).resetParser skip
+//@   callsite (*Manager).cleanup skip
+//@   callsite (*Manager).closePacketQueue skip
+//@   callsite (*Manager).reconnect skip
+//@   ensures dialed && !dialerr ==> drainers == 1 [C02.drainer.started.client]
+//@   ensures drainers <= 1 [C02.drainer.at.most.one.client]
